@@ -15,7 +15,7 @@ BASE_WEIGHTS = {"mk": 4, "mk_child": 4, "add": 2, "set": 4, "set_parent": 3, "bs
                 "tag_remove": 1, "node_parent": 2, "follow": 2, "unfollow": 1, "set_p": 1, "k_rename": 1, "h_doc": 1, "delete": 2, "expunge": 1,
                 "flush": 4, "commit": 2, "rollback": 1, "begin_nested": 0, "sp_commit": 0, "sp_rollback": 0, "close": 0, "requery": 1, "get": 1,
                 "lazy": 1, "expire": 0, "expire_all": 0, "refresh": 0, "mut_data": 0, "mut_items": 0, "ext_update": 0, "merge": 0, "drop": 0,
-                "gc": 0, "pickle_rt": 0, "populate_existing": 0, "q_ops": 1}
+                "gc": 0, "pickle_rt": 0, "populate_existing": 0, "q_ops": 1, "g_ops": 2}
 
 
 def setup():
@@ -49,12 +49,17 @@ def make_gen(weights, cfg_fn=None, nmin=8, nmax=40, shape=None):
 def txn_blocks(rng, pool):
     """few objects, then blocks of [begin_nested]* work (begin_nested|flush-heavy)* end; faults land inside work that has in-flight state"""
     r = lambda: rng.randrange(64)
-    prog = [[rng.choice(("mk", "mk", "mk_child", "q_ops")), r(), r()] for _ in range(rng.randint(1, 3))]
+    prog = [[rng.choice(("mk", "mk", "mk_child", "q_ops", "g_ops")), r(), r()] for _ in range(rng.randint(1, 3))]
+    focus_k = "k_rename" in pool and rng.random() < 0.3       # natural primary keys: identity-key switches inside (nested) transactions
+    if focus_k:
+        prog.insert(0, ["mk", 6, 1 + rng.randrange(60)])
     prog.append([rng.choice(("commit", "flush", "commit")), 0, 0])
     if rng.random() < 0.5:
         prog.append(["requery", r(), r()])
     work = [o for o in pool if o in ("set", "set", "delete", "k_rename", "mk", "mk_child", "set_parent", "bs_append", "bs_remove", "tag_add",
-                                     "node_parent", "follow", "mut_data", "mut_items", "expire", "refresh", "lazy", "get")] or ["set"]
+                                     "node_parent", "follow", "g_ops", "q_ops", "mut_data", "mut_items", "expire", "refresh", "lazy", "get")] or ["set"]
+    if focus_k:
+        work = work + ["k_rename"] * (len(work) // 2 + 1)
     for _ in range(rng.randint(1, 4)):
         depth = 0
         for _ in range(rng.randint(0, 2)):
